@@ -423,6 +423,28 @@ def check_make_ref(r, repo):
         )
     if n < 3:
         raise AnalysisError("make_ref: fewer return paths than expected")
+    # toidentifier: names of unregistered constants are derived from the value; the encoding must not merge values
+    ti = repo.func(rel, "toidentifier")
+    n_complex = 0
+    for node in ast.walk(ti):
+        if isinstance(node, ast.If) and isinstance(node.test, ast.Call) and dotted(node.test.func) == "isinstance" and len(node.test.args) == 2:
+            ty = norm_src(node.test.args[1])
+            rets = [x for st in node.body for x in ast.walk(st) if isinstance(x, ast.Return)]
+            if "complex" in ty:
+                n_complex += 1
+                for rt in rets:
+                    attrs = {x.attr for x in ast.walk(rt) if isinstance(x, ast.Attribute) and dotted(x.value) == "value"}
+                    ok = {"real", "imag"} <= attrs
+                    r.ob("R5.9", f"expr.py::toidentifier {ty} branch encodes both parts", ok,
+                         f"`{norm_src(rt)}` reads only {sorted(attrs)} of a complex value: constants differing in the other part get the same "
+                         "generated name and, being unregistered, the same variable", loc(rel, rt))
+            elif "float" in ty or "floating" in ty:
+                body_src = " ".join(norm_src(st) for st in node.body)
+                ok = "copysign" in body_src or "signbit" in body_src
+                r.ob("R5.9", f"expr.py::toidentifier {ty} branch distinguishes -0.0", ok,
+                     "the identifier of a float constant is derived from `value == int(value)`, which merges 0.0 and -0.0", loc(rel, node))
+    if n_complex < 2:
+        raise AnalysisError("toidentifier: complex branches not found")
     # _register_reference: the key that is stored is the key that was just looked up and found free
     rr = repo.func("context.py", "Context._register_reference")
     stores = 0
